@@ -1,2 +1,2 @@
 from harness.corecheck import make
-MODULE = make("C03", ["CircusProofs/Props/C03.lean"], ["CircusProofs/Lemmas/Core.lean"])
+MODULE = make("C03", ["CircusProofs/Props/C03.lean"], ["CircusProofs/Core/Pres.lean"])
